@@ -59,8 +59,12 @@ def run_pool(modname, shard_descs, t_end):
     else:
         # multiprocessing.Pool, not ProcessPoolExecutor: in CPython 3.12.1 the executor's max_tasks_per_child
         # never replaces retired workers (gh-115634) and a run with many shards hangs.
+        # Every shard runs in a process of its own, forked from a server that has imported the library and the check
+        # module but executed nothing: a shard's result cannot depend on which shards the same worker ran before
+        # (module-level caches of the library), so a failure reproduces from (check, shard) alone.
         ctx = mp.get_context('forkserver')
-        with ctx.Pool(processes=min(NPROC, len(shard_descs)), maxtasksperchild=40) as pool:
+        ctx.set_forkserver_preload(['numpy', 'bionumpy', 'engine.result', 'engine.observe', 'checks.' + modname])
+        with ctx.Pool(processes=min(NPROC, len(shard_descs)), maxtasksperchild=1) as pool:
             outs = pool.map(_worker, [(modname, d, t_end, os.getpid()) for d in shard_descs], chunksize=1)
     for o, d in zip(outs, shard_descs):  # shard order: deterministic merge
         if o[0] == 'ok':
